@@ -297,6 +297,14 @@ impl Reader {
 			// If the type is Empty (0), it's a padded block.
 			// Discard the rest of the buffer and read next block.
 			if self.cur_rec_type == RecordType::Empty {
+				// Zero padding has no checksum to verify: accept it only if the whole header
+				// is zero, so that a record whose type byte was damaged to 0 is not skipped
+				if crc != 0 || length != 0 {
+					return Err(Error::IO(IOError::new(
+						io::ErrorKind::Other,
+						"non-zero header with empty record type",
+					)));
+				}
 				// Verify remaining bytes are zeros
 				let remaining = self.buffer_remaining();
 				if remaining > 0 {
